@@ -7,7 +7,9 @@ Extracts, from the tree under test, the tables MasaAbi.tla decides C18 on:
             (real / integer / character / procedure / funptr / unknown), the `value` attribute, array-ness
   cdefs   : every extern "C" function DEFINED in src/cmasa.cpp: name, result type, argument types (normalised)
   cdecls  : every function DECLARED in the extern "C" block of src/masa.h.in
-  swig    : %module and the %include list of src/masa.i
+  swig    : %module, the %include list and every other %directive of src/masa.i
+  cview, swigview : the functions the header declares to a C caller and to SWIG (conditionals evaluated by gcc -E
+            with no macro / with SWIG and SWIGPYTHON defined, #include not followed, __cplusplus undefined)
   exported: global text symbols of the freshly built library (nm), when a library directory is given
 The extractor only reads; every judgement (slot mapping, equality of conventions) is made by the specification.
 """
@@ -67,6 +69,22 @@ def c_decls(repo):
     blk = s[i:]
     out = []
     for m in re.finditer(r'\bextern\s+([\w\s\*]+?)\s*\b(\w+)\s*\(([^;{]*?)\)\s*;', blk):
+        out.append(dict(name=m.group(2), ret=norm_ctype(m.group(1)), args=split_args(m.group(3))))
+    return out
+
+
+def header_view(repo, defines):
+    """the functions a translation unit sees when it includes the public header with the given macros defined and
+    __cplusplus undefined: the C caller's view (no macros) and SWIG's view (SWIG's preprocessor defines SWIG and
+    SWIGPYTHON, evaluates conditionals and does not follow #include).  The conditionals are evaluated by the C
+    preprocessor (gcc -E), the declarations are read from its output."""
+    src = open(repo + '/src/masa.h.in').read()
+    src = re.sub(r'^[ \t]*#[ \t]*include[^\n]*$', '', src, flags=re.M)
+    r = subprocess.run(['gcc', '-E', '-P', '-x', 'c', '-undef'] + ['-D' + d for d in defines] + ['-'], input=src, stdout=subprocess.PIPE, stderr=subprocess.DEVNULL, text=True)
+    if r.returncode != 0:
+        return None
+    out = []
+    for m in re.finditer(r'\bextern\s+([\w\s\*]+?)\s*\b(\w+)\s*\(([^;{]*?)\)\s*;', r.stdout):
         out.append(dict(name=m.group(2), ret=norm_ctype(m.group(1)), args=split_args(m.group(3))))
     return out
 
@@ -151,7 +169,7 @@ def swig(repo):
     s = open(repo + '/src/masa.i').read()
     s = re.sub(r'//[^\n]*', '', s)
     s = re.sub(r'%\{.*?%\}', '', s, flags=re.S)
-    return dict(module=re.findall(r'%module\s+(\w+)', s), includes=re.findall(r'%include\s+"([^"]+)"', s) + re.findall(r'%include\s+<([^>]+)>', s),
+    return dict(directives=sorted(set(re.findall(r'%(\w+)', s)) - {'module', 'include'}), module=re.findall(r'%module\s+(\w+)', s), includes=re.findall(r'%include\s+"([^"]+)"', s) + re.findall(r'%include\s+<([^>]+)>', s),
                 imports=re.findall(r'%import\s+"([^"]+)"', s))
 
 
@@ -163,6 +181,7 @@ def exported(libdir):
 def main():
     repo, out = sys.argv[1], sys.argv[2]
     d = dict(fortran=fortran_binds(repo), cdefs=c_defs(repo), cdecls=c_decls(repo), swig=swig(repo),
+             cview=header_view(repo, []), swigview=header_view(repo, ['SWIG', 'SWIGPYTHON']),
              exported=exported(sys.argv[3]) if len(sys.argv) > 3 else [])
     json.dump(d, open(out, 'w'), indent=1)
     print('fortran bind(C): %d, C definitions: %d, header declarations: %d, exported: %d' % (len(d['fortran']), len(d['cdefs']), len(d['cdecls']), len(d['exported'])))
